@@ -337,6 +337,12 @@ func (b *bootstrapContext) DeleteConfig(ctx context.Context, bucketName, groupID
 		if err != nil {
 			return false, base.RedactErrorf("Error fetching registry to finalize delete of config group: %s, database: %s: %w", base.MD(groupID), base.MD(dbName), err), nil
 		}
+		// Only remove the entry this delete marked as deleted: the database may have been re-created (by this or another
+		// node) after the config was deleted, in which case the entry belongs to that create and must be kept.
+		if registryDb, found := registry.getRegistryDatabase(groupID, dbName); found && !registryDb.IsDeleted() {
+			base.InfofCtx(ctx, base.KeyConfig, "Database was re-created during delete finalization, leaving registry entry in place")
+			return false, nil, nil
+		}
 		if !registry.removeDatabase(groupID, dbName) {
 			base.InfofCtx(ctx, base.KeyConfig, "Database not found in registry during finalization")
 			return false, nil, nil
